@@ -177,9 +177,17 @@ impl Mon {
                                 let closed = pr.size - p1.size.value.u128();
                                 pr.pnl_spot()?.mul(&S::pos(closed)).div_trunc(&S::pos(pr.size))
                             };
-                            let mut exp = S::pos(pr.margin).add(&delta).sub(&pr.funding);
+                            let exp = S::pos(pr.margin).add(&delta).sub(&pr.funding);
                             if exp.is_neg() {
-                                exp = S::zero();
+                                // the position owes more than its margin (plus what the order adds / realises) can pay: the charge
+                                // cannot be collected, so the order cannot go through (a stored margin of zero would write the rest off)
+                                return Some(
+                                    Violation::new(
+                                        "funding_written_off_on_trade",
+                                        format!("{:?} succeeded although margin {} + {} - funding owed {} = {} < 0: stored margin is {}, the remainder of the charge is dropped", s.effect, pr.margin, delta, pr.funding, exp, p1.margin),
+                                    )
+                                    .with("effect", format!("{:?}", s.effect)),
+                                );
                             }
                             if S::pos(p1.margin.u128()) != exp {
                                 return Some(
@@ -356,7 +364,7 @@ pub fn prop() -> HistProp {
         max_ops: (40, 100),
         cases: (12_000, 400_000),
         make: || Box::new(Mon::default()),
-        rule: "engine histories rich in PayFunding calls on block-time schedules around next_funding_time (1 s before, exactly at, half a period / a period / a day later, two calls in one block), oracle above / below / equal to the vAMM TWAP, net position long / short / flat, interleaved trades, deposits, withdrawals, closes and liquidations. Successful PayFunding: now >= next_funding_time(pre); cumulative fraction moves by trunc((TwapPrice{i} - UnderlyingTwapPrice{i}) * period / 86400) with both read in the pre-state; next_funding_time(post) >= now + period/2; with P = trunc(T*fraction/D) exactly min(P, vault) moves vault->fund (P>0) or |P| fund->vault (P<0) and no other balance moves. After every step the engine's CumulativePremiumFraction must equal the sum of the reference fractions of the settlements so far (it moves by settlements only). Owner trades (increase / reduce / partial close / withdraw): checkpoint = current fraction and stored margin = M + delta - F (floored at 0 on trades); reversal (cw20): wallet delta = (M + PnL - F) - new margin - fees. Non-trivial: >= 1 settlement with non-zero fraction and payment and >= 1 charged owner operation with F != 0. Distinct by digest of (cfg, ops).",
+        rule: "engine histories rich in PayFunding calls on block-time schedules around next_funding_time (1 s before, exactly at, half a period / a period / a day later, two calls in one block), oracle above / below / equal to the vAMM TWAP, net position long / short / flat, interleaved trades, deposits, withdrawals, closes and liquidations. Successful PayFunding: now >= next_funding_time(pre); cumulative fraction moves by trunc((TwapPrice{i} - UnderlyingTwapPrice{i}) * period / 86400) with both read in the pre-state; next_funding_time(post) >= now + period/2; with P = trunc(T*fraction/D) exactly min(P, vault) moves vault->fund (P>0) or |P| fund->vault (P<0) and no other balance moves. After every step the engine's CumulativePremiumFraction must equal the sum of the reference fractions of the settlements so far (it moves by settlements only). Owner trades (increase / reduce / partial close / withdraw): checkpoint = current fraction and stored margin = M + delta - F (an order that would make it negative must not succeed: the charge could not be collected); reversal (cw20): wallet delta = (M + PnL - F) - new margin - fees. Non-trivial: >= 1 settlement with non-zero fraction and payment and >= 1 charged owner operation with F != 0. Distinct by digest of (cfg, ops).",
         assumptions: &["withdraw / close / full-liquidation charges are asserted by C05 / C04 / C06 with the same F; the reversal wallet clause is evaluated on cw20 deployments (native reversals are C13's subject)"],
         eval_counter: None,
     }
